@@ -1036,7 +1036,9 @@ def apply_contract(ex, c, f, args, kwargs):
     try:
         if k == 0:
             if isinstance(c.returns, str):
+                n_nd = len(ex.nondet)
                 res = eval_clause(ex, c.returns, env, mod)
+                del ex.nondet[n_nd:]      # the stub returns the value itself
             else:
                 res = c.returns.sym(ex, 'ret!' + c.name.split(':')[-1]) if c.returns is not None else None
             if ex.ghost.get('live_env') is not None:
@@ -1057,8 +1059,9 @@ def apply_contract(ex, c, f, args, kwargs):
         exc = SObj(cls)
         exc.fields['args'] = STuple()
         exc.partial = False
+        exc.fields['errno'] = ex.fresh_int('errno!' + c.name.split(':')[-1])
+        exc.fields['strerr'] = OPAQUE
         if cls.issubclass(ex.world.bclasses['OSError']):
-            exc.fields['errno'] = ex.fresh_int('errno!' + c.name.split(':')[-1])
             exc.fields['strerror'] = OPAQUE
         env2 = dict(env)
         env2['exc'] = exc
